@@ -28,7 +28,38 @@ func init() {
 // enclosingIfWhere walks up from n and returns the innermost if-statement for
 // which n lies in the given branch ("then"/"else"/"any") and cond satisfies pred.
 func enclosingIfWhere(p *Prog, n ast.Node, stop ast.Node, pred func(cond ast.Expr, inThen bool) bool) *ast.IfStmt {
-	for cur := p.Parent(n); cur != nil && cur != stop; cur = p.Parent(cur) {
+	var child ast.Node = n
+	for cur := p.Parent(n); cur != nil; child, cur = cur, p.Parent(cur) {
+		// guard clauses of the enclosing statement lists: `if !C { leave }` earlier in the list puts what
+		// follows under C, `if C { leave }` under !C
+		var list []ast.Stmt
+		switch x := cur.(type) {
+		case *ast.BlockStmt:
+			list = x.List
+		case *ast.CaseClause:
+			list = x.Body
+		case *ast.CommClause:
+			list = x.Body
+		}
+		for _, st := range list {
+			if st.End() > child.Pos() {
+				break
+			}
+			gi, ok := st.(*ast.IfStmt)
+			if !ok || gi.Else != nil || !leavesBlock(gi.Body) {
+				continue
+			}
+			if u, ok := unparen(gi.Cond).(*ast.UnaryExpr); ok && u.Op == token.NOT {
+				if pred(u.X, true) {
+					return gi
+				}
+			} else if pred(gi.Cond, false) {
+				return gi
+			}
+		}
+		if cur == stop {
+			return nil
+		}
 		ifs, ok := cur.(*ast.IfStmt)
 		if !ok {
 			if _, isFn := cur.(*ast.FuncLit); isFn {
@@ -889,7 +920,7 @@ func ruleR42(c *Ctx) {
 		in := info(f)
 		n := 0
 		inspectNoLit(f.Body, func(m ast.Node) bool {
-			rs, ok := m.(*ast.RangeStmt)
+			rs, ok := elementLoop(in, m)
 			if !ok {
 				return true
 			}
@@ -910,7 +941,7 @@ func ruleR42(c *Ctx) {
 				}
 				return false
 			})
-			c.Check(!skips, f, rs, "ForwardEvent visits every consumer", "the loop that delivers an event to the consumers has no break, return or goroutine: every registered consumer is visited, in order, synchronously", fmt.Sprintf("skipping construct in the loop: %v", skips))
+			c.Check(!skips, f, rs.Stmt, "ForwardEvent visits every consumer", "the loop that delivers an event to the consumers has no break, return or goroutine: every registered consumer is visited, in order, synchronously", fmt.Sprintf("skipping construct in the loop: %v", skips))
 			return true
 		})
 		if n == 0 {
@@ -1205,15 +1236,59 @@ func ruleR44(c *Ctx) {
 					}
 				}
 			}
+			if call, ok := m.(*ast.CallExpr); ok && at == nil {
+				// a helper method of the same receiver that writes receiver state
+				if cf := p.byObj[callee(in, call)]; cf != nil && cf.Obj != nil && f.Obj != nil && recvNamed(cf.Obj) != nil && recvNamed(f.Obj) != nil && recvNamed(cf.Obj).Obj() == recvNamed(f.Obj).Obj() && cf != f {
+					cin := info(cf)
+					inspectNoLit(cf.Body, func(z ast.Node) bool {
+						if as, ok := z.(*ast.AssignStmt); ok {
+							for _, l := range as.Lhs {
+								if fieldOf(cin, l) != nil {
+									at = call
+								}
+							}
+						}
+						return true
+					})
+				}
+			}
 			if at == nil {
 				return true
 			}
-			guard := enclosingIfWhere(p, at, f.Body, func(cond ast.Expr, inThen bool) bool {
-				return inThen && exprMentions(cond, func(y ast.Node) bool {
-					cc, ok := y.(*ast.CallExpr)
-					return ok && callee(in, cc) != nil && callee(in, cc).Name() == "MatchesEventInstance"
-				})
-			})
+			isMatch := func(y ast.Node) bool {
+				cc, ok := y.(*ast.CallExpr)
+				return ok && callee(in, cc) != nil && callee(in, cc).Name() == "MatchesEventInstance"
+			}
+			guard := ast.Node(nil)
+			if g1 := enclosingIfWhere(p, at, f.Body, func(cond ast.Expr, inThen bool) bool {
+				return inThen && exprMentions(cond, isMatch)
+			}); g1 != nil {
+				guard = g1
+			}
+			if guard == nil {
+				// guard clause: an earlier `if !Matches(..) { continue|return|break }` in an enclosing block
+				var child ast.Node = at
+				for cur := p.Parent(at); cur != nil && guard == nil; cur = p.Parent(cur) {
+					if blk, ok := cur.(*ast.BlockStmt); ok {
+						for _, st := range blk.List {
+							if st.End() > child.Pos() {
+								break
+							}
+							ifs, ok := st.(*ast.IfStmt)
+							if !ok || ifs.Else != nil || !leavesBlock(ifs.Body) {
+								continue
+							}
+							if u, ok := unparen(ifs.Cond).(*ast.UnaryExpr); ok && u.Op == token.NOT && exprMentions(u.X, isMatch) {
+								guard = ifs
+							}
+						}
+					}
+					if _, isFn := cur.(*ast.FuncDecl); isFn {
+						break
+					}
+					child = cur
+				}
+			}
 			c.Check(guard != nil, f, at, "satisfier state change", "every change of satisfier state is control-dependent on MatchesEventInstance(...) being true: an event that matches no definition changes nothing", fmt.Sprintf("under a successful match: %v", guard != nil))
 			return true
 		})
@@ -1729,4 +1804,67 @@ func ruleR51(c *Ctx) {
 			}
 		}
 	}
+}
+
+// elemLoop is a loop that visits every element of a collection: a range
+// statement, or `for i := 0; i < len(x); i++` whose index is not written in the body.
+type elemLoop struct {
+	Stmt ast.Stmt
+	Body *ast.BlockStmt
+}
+
+func elementLoop(in *types.Info, n ast.Node) (elemLoop, bool) {
+	switch x := n.(type) {
+	case *ast.RangeStmt:
+		return elemLoop{x, x.Body}, true
+	case *ast.ForStmt:
+		init, ok := x.Init.(*ast.AssignStmt)
+		if !ok || len(init.Lhs) != 1 || len(init.Rhs) != 1 {
+			return elemLoop{}, false
+		}
+		id, ok := init.Lhs[0].(*ast.Ident)
+		lit, ok2 := unparen(init.Rhs[0]).(*ast.BasicLit)
+		if !ok || !ok2 || lit.Value != "0" {
+			return elemLoop{}, false
+		}
+		iv := objOf(in, id)
+		cond, ok := unparen(x.Cond).(*ast.BinaryExpr)
+		if !ok || cond.Op != token.LSS {
+			return elemLoop{}, false
+		}
+		if cid, ok := unparen(cond.X).(*ast.Ident); !ok || objOf(in, cid) != iv {
+			return elemLoop{}, false
+		}
+		if call, ok := unparen(cond.Y).(*ast.CallExpr); !ok || !isBuiltin(in, call, "len") {
+			return elemLoop{}, false
+		}
+		post, ok := x.Post.(*ast.IncDecStmt)
+		if !ok || post.Tok != token.INC {
+			return elemLoop{}, false
+		}
+		if pid, ok := unparen(post.X).(*ast.Ident); !ok || objOf(in, pid) != iv {
+			return elemLoop{}, false
+		}
+		written := false
+		inspectNoLit(x.Body, func(z ast.Node) bool {
+			switch y := z.(type) {
+			case *ast.AssignStmt:
+				for _, l := range y.Lhs {
+					if lid, ok := unparen(l).(*ast.Ident); ok && objOf(in, lid) == iv {
+						written = true
+					}
+				}
+			case *ast.IncDecStmt:
+				if lid, ok := unparen(y.X).(*ast.Ident); ok && objOf(in, lid) == iv {
+					written = true
+				}
+			}
+			return true
+		})
+		if written {
+			return elemLoop{}, false
+		}
+		return elemLoop{x, x.Body}, true
+	}
+	return elemLoop{}, false
 }
